@@ -40,7 +40,8 @@ reg(part('sse2_memchr', 'src/arch/x86_64/sse2/memchr.rs', 'arch::x86_64::sse2::m
 reg(part('avx2_memchr', 'src/arch/x86_64/avx2/memchr.rs', 'arch::x86_64::avx2::memchr'))
 reg(part('all_memchr', 'src/arch/all/memchr.rs', 'arch::all::memchr', deref_idents=['ptr']))
 reg(part('all_mod', 'src/arch/all/mod.rs', 'arch::all'))
-reg(part('all_rabinkarp', 'src/arch/all/rabinkarp.rs', 'arch::all::rabinkarp'))
+reg(part('all_rabinkarp', 'src/arch/all/rabinkarp.rs', 'arch::all::rabinkarp',
+         keep_derives=['Clone', 'Copy', 'PartialEq', 'Eq', 'Default']))
 reg(part('all_twoway', 'src/arch/all/twoway.rs', 'arch::all::twoway'))
 reg(part('all_packedpair', 'src/arch/all/packedpair/mod.rs', 'arch::all::packedpair'))
 reg(part('all_default_rank', 'src/arch/all/packedpair/default_rank.rs', 'arch::all::packedpair::default_rank'))
